@@ -150,13 +150,15 @@ const WHOLE: &str = r#"
 import "hash"
 import "pe"
 import "math"
+import "test_proto2"
 rule w0 { condition: defined filesize }
 rule w1 { condition: defined uint8(0) }
 rule w2 { condition: defined hash.md5(0, 3) }
 rule w3 { condition: defined pe.is_pe }
 rule w4 { condition: defined math.entropy(0, 8) }
+rule w5 { condition: test_proto2.array_struct.len() >= 1 or defined test_proto2.array_struct[0].nested_int64_one }
 "#;
-const NOTIONS: [&str; 5] = ["filesize", "uintN", "hash", "module-fields", "math"];
+const NOTIONS: [&str; 6] = ["filesize", "uintN", "hash", "module-fields", "math", "module-struct-arrays"];
 const HISTORIES: [&str; 3] = ["fresh-block-scanner-fresh-thread", "converted-after-contiguous-scan", "other-scanner-scanned-on-thread"];
 
 /// whole-file notions in block mode after three histories (each on its own thread)
@@ -173,7 +175,7 @@ fn whole_file_cases(shards: &mut Shards, stats: &mut Stats) {
                 bs.scan(0, blk).unwrap();
                 let r = bs.finish().unwrap();
                 let m: Vec<String> = r.matching_rules().map(|r| r.identifier().to_string()).collect();
-                (0..5).map(|i| m.contains(&format!("w{}", i))).collect()
+                (0..6).map(|i| m.contains(&format!("w{}", i))).collect()
             }).join().unwrap());
             for (notion, d) in defined.iter().enumerate() {
                 stats.inc("whole_file_cases");
